@@ -328,6 +328,17 @@ def resource_api(r):
                 if p != "*" and len(set(v for k, v in split_pattern(p) if k == "var")) == sum(1 for k, _ in split_pattern(p) if k == "var"):
                     del rr.pattern[:]
                     rr.pattern.extend([p, "alt/{alt}"])
+    if r.random() < 0.6:
+        # a resource referenced ONLY from the response type of a long-running operation (type and child_type forms)
+        api.main.resource_def("library.example.com/Depot", ["depots/{depot}/bins/{bin=**}"])
+        api.main.resource_def("library.example.com/Crate", ["crates/{crate}"])
+        api.main.dep("google/longrunning/operations.proto")
+        rq = api.main.message("ArchiveRequest"); rq.field("name", 1, "string")
+        inner = api.main.message("ArchiveDetail"); inner.field("crate", 1, "string", child_ref="library.example.com/Crate")
+        rs = api.main.message("ArchiveResponse"); rs.field("depot", 1, "string", ref="library.example.com/Depot").field("detail", 2, inner.fqn)
+        md = api.main.message("ArchiveMetadata"); md.field("pct", 1, "int32")
+        api.services[0].rpc("Archive", rq.fqn, ".google.longrunning.Operation", http=("post", "/v1/{name=things/*}:archive"), body="*",
+                            lro=("ArchiveResponse", "ArchiveMetadata"))
     if r.random() < 0.7:
         api.main.resource_def("library.example.com/Vault", [gen_pattern(r).replace("*", "vaults/{vault}")])
         m = api.main.message("VaultRef")
